@@ -50,7 +50,7 @@ ASSUMPTIONS = [
 	"1e-9 (log2) of the p-value threshold is skipped (inconclusive)",
 	"scores compared at 1e-9 (the kernel is compiled with fastmath)",
 ]
-REQUIRED = {"reference_hits": 200, "hits_in_last_window": 10,
+REQUIRED = {"history_followup_calls": 20, "reference_hits": 200, "hits_in_last_window": 10,
 	"hits_in_first_window": 10, "thread_variants": 5, "fasta_variants": 5}
 TECHNIQUE = ("runtime monitoring: pure-Python reference scanner + exact tail "
 	"tables vs every observed fimo() result; differential monitors over "
@@ -383,6 +383,46 @@ def run_case(cls, params, rec):
 						"a different hit table than 1 thread" % nt),
 						mech="C12/thread-count-dependence")
 					return
+		# call history on the same motif objects: change one parameter at a
+		# time, then return to the original call (state kept between calls -
+		# caches keyed too coarsely, reused buffers - would show here)
+		src = seq_tensor(seqs) if equal else fpath
+		sn = None if equal else fnames
+		r2 = gen.pyrng("C12hist", params["cseed"])
+		alts = [("eps", [e for e in (1e-4, 1e-3, 1e-2, 0.1)
+			if e != params["eps"]]), ("threshold", [t for t in (1e-1, 1e-2,
+			1e-3, 1e-4) if t != thr]), ("bin", [b for b in (0.05, 0.1, 0.25,
+			0.5) if b != params["bin"]])]
+		r2.shuffle(alts)
+		for field, choices in alts[:params.get("n_history", 2)]:
+			p2 = dict(params)
+			p2[field] = r2.choice(choices)
+			kw2 = dict(bin_size=p2["bin"], eps=p2["eps"],
+				threshold=p2["threshold"], reverse_complement=p2["rc"])
+			must2, may2, skipped2, info2 = reference_hits(motifs, seqs, p2)
+			st, val = gen.call(F.fimo, tm, src, **kw2)
+			if st == "raise":
+				rec.violation(cls, pub, dict(desc, what="fimo raised on a "
+					"follow-up call with %s=%s" % (field, p2[field]),
+					error=repr(val)[:300]), mech="C12/raised")
+				return
+			got2, dup2 = df_rows(val, sn)
+			bad = compare(rec, cls, p2, got2, dup2, must2, may2, skipped2,
+				info2, names, p2["threshold"], "follow-up call with %s=%s "
+				"after %s=%s on the same motifs" % (field, p2[field], field,
+				params[field]))
+			rec.count("history_followup_calls")
+			if bad is not None:
+				rec.violation(cls, pub, dict(desc, **bad[0]),
+					mech="C12/call-history-dependence")
+				return
+		st, val = gen.call(F.fimo, tm, src, **kw)
+		if st == "raise" or not same_table(df_rows(val, sn)[0], base if equal
+			else got, exact=True):
+			rec.violation(cls, pub, dict(desc, what="repeating the original "
+				"call after other calls gives a different hit table"),
+				mech="C12/call-history-dependence")
+			return
 		# sanitizer-style instruments on the kernel
 		if params.get("instrument") and equal and sum(lens) <= 400:
 			src = seq_tensor(seqs)
